@@ -5,9 +5,9 @@
    the language of its grammar, never panics, and rejects at the first bad token. *)
 From Coq Require Import List Arith Lia Bool Sorting.Sorted Permutation.
 From Kiki Require Import Base.Ord Base.OrdProofs Base.Chars Data DataProofs Oset.Model Oset.Proofs Ast.ValidateProofs Ast.VWF
-  LR.Driver LR.Grammar LR.Inv LR.Viable LR.Validate LR.ValidateProofs
+  LR.Driver LR.Grammar LR.Inv LR.Viable LR.Least LR.Validate LR.ValidateProofs
   Build.Machine Build.Table Build.TableProofs Build.FillProofs Build.TableSpec Build.ClosureProofs Build.LoopProofs
-  Build.LoopInv Build.NormProofs Build.MachineSpec Build.FirstProofs Emit.Parser Emit.PtableProofs.
+  Build.LoopInv Build.NormProofs Build.MachineSpec Build.DerProofs Build.FirstProofs Emit.Parser Emit.PtableProofs.
 Import ListNotations.
 Open Scope nat_scope.
 
@@ -517,6 +517,65 @@ Section Gen.
       pose proof (R_fun _ _ _ HpR HRx) as ->.
       exists (tr it0), (skipn (S (it_dot it0)) ps). split; [apply In_state_iff; eauto|]. rewrite Had. f_equal. apply nth_skipn_cons, Hp.
   Qed.
+
+  (* ---------- leastness: every item is derivable ---------- *)
+
+  Hypothesis HD : forall k st it, nth_error (m_states m) k = Some st -> In it st ->
+                                  Der cx (m_transitions m) (m_start m) k it.
+
+  (* the candidates of the closure, the other way round *)
+  Lemma cands_rel_conv syms ps la a0 : Forall2 R syms ps ->
+    In a0 (augmented_first (first_of_sequence fm syms []) la) -> In (la_tr a0) (cands ft ps (la_tr la)).
+  Proof.
+    intros HR Hin. destruct (first_seq_rel _ _ HR) as (Hf & Hn).
+    destruct (first_of_sequence_spec fm syms []) as (Hterms' & Heps).
+    unfold cands. rewrite Hf, Hn. unfold augmented_first in Hin. rewrite Heps in Hin.
+    assert (Hcase : In a0 (map Some (fs_terminals (first_of_sequence fm syms []))) \/ (fnull fm syms = true /\ a0 = la)).
+    { destruct (fnull fm syms); apply (proj1 (ofrom_iter_in lookahead_cmp lookahead_cmp_laws _ _)) in Hin.
+      - apply in_app_or in Hin as [Hin|[<-|[]]]; auto.
+      - auto. }
+    destruct Hcase as [Hc|(Hnull & ->)].
+    - apply in_map_iff in Hc as (u & <- & Hu). apply Hterms' in Hu as [[]|Hu]. apply in_or_app. left. cbn [la_tr option_map].
+      apply in_map, in_map, Hu.
+    - apply in_or_app. right. rewrite Hnull. left. reflexivity.
+  Qed.
+
+  Lemma der_in_state k it0 : Der cx (m_transitions m) (m_start m) k it0 ->
+    exists st, nth_error (m_states m) k = Some st /\ In it0 st.
+  Proof.
+    intros H. induction H as [|j jt it _ (st & Hst & Hjt) Himp|trn it Htin _ (sf & Hsf & Hit) Hn].
+    - destruct (mi_start cx m HM) as (st0 & Hs0 & Hin & _). eauto.
+    - exists st. split; [exact Hst|]. destruct (mi_states cx m HM j st Hst) as (_ & Hc & _). apply (Hc jt it Hjt Himp).
+    - destruct (mi_goto cx m HM _ sf it _ Hsf Hit Hn) as (t2 & st' & Ht2 & Hf2 & Hs2 & Hst' & Hadv).
+      assert (Hto : tr_to t2 = tr_to trn) by (apply (mi_det cx m HM t2 trn Ht2 Htin Hf2 Hs2)).
+      rewrite Hto in Hst'. eauto.
+  Qed.
+
+  Theorem gen_Least : Least pt ann (fseq ft).
+  Proof.
+    destruct pt_fields as (Hstart & _ & _ & _).
+    intros s it Hin. apply In_state_iff in Hin as (st & it0 & Hst & Hit & ->).
+    pose proof (HD s st it0 Hst Hit) as Hd. clear Hst Hit st.
+    induction Hd as [|j jt0 it0 Hdj IH Himp|trn it0 Htin Hdf IH Hn].
+    - rewrite <- Hstart. apply ld_start.
+    - destruct (der_in_state _ _ Hdj) as (st & Hst & Hjt).
+      destruct Himp as (syms & B & r & ru & la & Hrs & Hnth & Hru & HB & Hla & ->). rewrite Hcx_rules in Hru.
+      destruct (Forall2_nth_l _ _ _ prules_rel r ru Hru) as (pru & Hpr & Hprule). destruct (prule_parts ru pru Hprule) as (Hl & _ & _).
+      destruct (item_view _ _ _ Hst Hjt) as (syms' & ps & Hrs' & Hd & Hps & HR & Had). rewrite Hrs in Hrs'. injection Hrs' as <-.
+      destruct (Forall2_nth_l _ _ _ HR _ _ Hnth) as (p & Hp & HpR). apply R_N in HpR as (c & -> & Hc).
+      rewrite <- HB, Hl in Hc. injection Hc as <-.
+      change (tr {| it_rule := Some r; it_la := la; it_dot := 0 |}) with {| irule := Some r; idot := 0; ila := la_tr la |}.
+      apply (ld_closure pt (fseq ft) j (tr jt0) r pru (skipn (S (it_dot jt0)) ps) (la_tr la) IH).
+      + rewrite Had. f_equal. apply nth_skipn_cons, Hp.
+      + exact Hpr.
+      + apply fseq_intro. cbn [tr ila]. apply (cands_rel_conv (skipn (S (it_dot jt0)) syms)); [apply Forall2_skipn, HR|exact Hla].
+    - destruct (der_in_state _ _ Hdf) as (sf & Hsf & Hit).
+      destruct (item_view _ _ _ Hsf Hit) as (syms & ps & Hrs & Hd & Hps & HR & Had).
+      unfold next_sym in Hn. rewrite Hrs in Hn. destruct (Forall2_nth_l _ _ _ HR _ _ Hn) as (p & Hp & HpR).
+      rewrite tr_adv. apply (ld_goto pt (fseq ft) (tr_from trn) (tr it0) p (skipn (S (it_dot it0)) ps) (tr_to trn) IH).
+      + rewrite Had. f_equal. apply nth_skipn_cons, Hp.
+      + apply (trans_goto_sym trn sf it0 p Htin Hsf Hit); [unfold next_sym; rewrite Hrs; exact Hn|exact HpR].
+  Qed.
 End Gen.
 
 (* ---------- the construction as a whole ---------- *)
@@ -556,7 +615,8 @@ Theorem generated_tables_invariants hot hoa fu v m t pt :
   VWF v -> (forall l, Permutation (hot l) l) -> perm_ho hoa ->
   validated_ast_to_machine hot fu v = Ok m -> machine_to_table hoa m v = Ok t -> ptable_of v t = Some pt ->
   exists (ann : list (list Grammar.item)) (ft : first_table),
-    Inv pt ann (fseq ft) /\ Inv2 pt ann /\ (forall P (kind : P -> nat), FirstOK kind pt (fseq ft)) /\ Inv3 pt ann.
+    Inv pt ann (fseq ft) /\ Inv2 pt ann /\ (forall P (kind : P -> nat), FirstOK kind pt (fseq ft)) /\ Inv3 pt ann /\
+    Least pt ann (fseq ft).
 Proof.
   intros HV Hpt Hpa Hm Ht HP. unfold validated_ast_to_machine in Hm.
   apply bind_ok in Hm as (cx & Hcx & Hm). apply bind_ok in Hm as (start & Hstart & Hm).
@@ -567,9 +627,11 @@ Proof.
   { intros n fs u Hg Hu. destruct (fi_occurs _ _ HFI n fs u Hg Hu) as (ru & Hru & Hs). exists ru. auto. }
   pose proof (machine_spec cx Hfmok hot (fu_build fu) (fu_closure fu) m start Hpt Hstart Hm) as HM.
   pose proof (machine_to_table_spec m v hoa t Hpa Ht) as HT.
-  exists (ann v m), (ft v cx). split; [|split; [|split]].
+  pose proof (machine_der cx Hfmok hot (fu_build fu) (fu_closure fu) m start Hpt Hstart Hm) as HDer.
+  exists (ann v m), (ft v cx). split; [|split; [|split; [|split]]].
   - apply gen_Inv with (t := t) (cx := cx); try assumption; reflexivity.
   - apply gen_Inv2 with (t := t) (cx := cx); try assumption; reflexivity.
   - intros P kind. apply gen_FirstOK with (m := m) (t := t) (cx := cx); try assumption; reflexivity.
   - apply gen_Inv3 with (t := t) (cx := cx); try assumption; reflexivity.
+  - apply gen_Least with (t := t) (cx := cx); try assumption; reflexivity.
 Qed.
